@@ -437,7 +437,11 @@ func (u *Universe) Prelude() string {
 (declare-fun strat (Int Int) Int)
 (declare-fun strsub (Int Int Int) Int)
 (assert (forall ((s Int)) (! (>= (strlen s) 0) :pattern ((strlen s)))))
+; uninterpreted functions of the standard-library stub contracts (DESIGN 2.2)
 `)
+	for _, d := range StubFuns {
+		sb.WriteString("(declare-fun " + d[0] + " " + d[1] + ")\n")
+	}
 	for _, s := range u.strOrder {
 		sb.WriteString(fmt.Sprintf("(assert (= (strlen %d) %d)) ; %q\n", u.strIDs[s], len(s), trunc(s, 40)))
 	}
@@ -447,6 +451,26 @@ func (u *Universe) Prelude() string {
 	sb.WriteString("; ---- end prelude ----\n")
 	return sb.String()
 }
+
+// StubFuns: the uninterpreted vocabulary of the stdlib stubs, declared in every prelude so that
+// ghost definitions and lemmas of the contract file may mention them.
+var StubFuns = [][2]string{
+	{"parseIntVal", "(Int) Int"}, {"parseIntOk", "(Int) Bool"}, {"parseBoolVal", "(Int) Bool"}, {"parseBoolOk", "(Int) Bool"},
+	{"itoa", "(Int) Int"}, {"quote", "(Int) Int"}, {"splitLen", "(Int Int) Int"}, {"splitArr", "(Int Int) (Array Int Int)"},
+	{"trimSpace", "(Int) Int"}, {"trimPrefix", "(Int Int) Int"}, {"hasPrefix", "(Int Int) Bool"}, {"containsRune", "(Int Int) Bool"},
+	{"containsAny", "(Int Int) Bool"}, {"joinStr", "((Array Int Int) Int Int Int) Int"}, {"isSpace", "(Int) Bool"}, {"isLetter", "(Int) Bool"},
+	{"isNumber", "(Int) Bool"}, {"parseUnix", "(Int Int) Int"}, {"parseTimeOk", "(Int Int) Bool"}, {"runesOf", "(Int) (Array Int Int)"},
+	{"bytesOf", "(Int) (Array Int Int)"}, {"runeLen", "(Int) Int"}, {"strOfArr", "((Array Int Int) Int Int) Int"}, {"strOfRune", "(Int) Int"},
+	{"fmul", "(Real Real) Real"}, {"fdiv", "(Real Real) Real"},
+}
+
+var stubFunSet = func() map[string]bool {
+	m := map[string]bool{}
+	for _, d := range StubFuns {
+		m[d[0]] = true
+	}
+	return m
+}()
 
 func trunc(s string, n int) string {
 	if len(s) > n {
